@@ -169,4 +169,39 @@ def outcomesG (o : FOps) (d : Db) : List Op → List (Res Out)
   | [] => []
   | op :: t => (stepG o d op).2 :: outcomesG o (stepG o d op).1 t
 
+/-! ### the whole public alphabet of `database` / `track` over this model
+
+`Call` adds to `Op` the database-level track queries (single SELECTs with a callback: no dereference /
+index / division site in engine_database_impl.cpp — inventory of tools/tr_c15guards.py).  `uuid()`,
+`version_name()`, `directory()`, `verify()` have NO content in this model (outcome `ok`); the tie exercises
+them. -/
+
+inductive Call where
+  | op (o : Op)
+  | dbTracks                          -- database::tracks
+  | dbTrackById (id : Int)            -- database::track_by_id
+  | dbTracksByPath (p : Bytes)        -- database::tracks_by_relative_path
+  | dbUuid | dbVersionName | dbDirectory | dbVerify
+
+inductive CallOut where
+  | out (o : Out)
+  | ids (l : List Int)
+  | oid (i : Option Int)
+  | unit
+
+def callGW (g : Guards) (o : FOps) (d : Db) : Call → Db × Res CallOut
+  | .op op =>
+    let p := stepGW g o d op
+    (p.1, match p.2 with | .ok a => .ok (.out a) | .throw e => .throw e | .ub u => .ub u)
+  | .dbTracks => (d, .ok (.ids (d.tracks.map (·.1))))
+  | .dbTrackById id => (d, .ok (.oid (if dbIsValid d id then some id else none)))
+  | .dbTracksByPath p => (d, .ok (.ids ((d.tracks.filter fun e => e.2.track.path == some p).map (·.1))))
+  | .dbUuid | .dbVersionName | .dbDirectory | .dbVerify => (d, .ok .unit)
+
+def callG (o : FOps) (d : Db) (c : Call) : Db × Res CallOut := callGW Guards.source o d c
+
+def callOutcomes (o : FOps) (d : Db) : List Call → List (Res CallOut)
+  | [] => []
+  | c :: t => (callG o d c).2 :: callOutcomes o (callG o d c).1 t
+
 end EngineModel.Api.GuardedTracksV1
